@@ -5,7 +5,10 @@ use std::collections::{BTreeMap, BTreeSet};
 fn statement_dependencies(statement: &Statement) -> BTreeSet<usize> {
     use Statement as S;
     match &statement {
-        S::Assignment { value, .. } => dependencies(value),
+        S::Assignment { target, value, .. } => dependencies(target)
+            .union(&dependencies(value))
+            .cloned()
+            .collect(),
 
         S::Block { statements, .. } => statements
             .iter()
